@@ -350,14 +350,125 @@ class Func:
         self._bl = cand - bad
         return self._bl
 
+    # -- path-sensitive environment ------------------------------------------
+    SCALARS = ('bool', 'u8', 'u16', 'u32', 'u64', 'usize', 'i8', 'i16', 'i32', 'i64', 'isize', 'u128', 'i128')
+
+    def _stable_locals(self):
+        """scalar locals that are only written as a whole and whose address is never taken: their value can only
+        change at an assignment, so what a switch learned about them stays true until then"""
+        if getattr(self, '_sl', None) is not None:
+            return self._sl
+        cand = {i for i, l in enumerate(self.locals) if l['ty'] in self.SCALARS}
+        bad = set()
+        for blk in self.blocks:
+            for s in blk['stmts']:
+                if s['k'] != 'assign':
+                    continue
+                if s['lhs']['p'] and s['lhs']['l'] in cand:
+                    bad.add(s['lhs']['l'])
+                rv = s['rv']
+                if rv['k'] in ('ref', 'rawptr') and rv.get('place', {}).get('l') in cand:
+                    bad.add(rv['place']['l'])
+            t = blk['term']
+            if t['k'] == 'call' and t['dest']['p'] and t['dest']['l'] in cand:
+                bad.add(t['dest']['l'])
+        self._sl = cand - bad
+        return self._sl
+
+    def _env_assign(self, envd, x, rv, stable):
+        """effect of `x = rv` (x a whole local) on the environment"""
+        def forget(l):
+            envd.pop(l, None)
+            envd.pop(('A', l), None)
+            for k in [k for k, v in envd.items() if isinstance(k, tuple) and v == l]:
+                envd.pop(k, None)
+        if x not in stable:
+            return
+        if rv is not None and rv['k'] == 'use' and rv['op'].get('k') == 'const' and const_val(rv['op']) is not None:
+            forget(x)
+            envd[x] = const_val(rv['op'])
+        elif rv is not None and rv['k'] == 'use' and 'l' in rv['op'] and not rv['op']['p'] and rv['op']['l'] in stable and rv['op']['l'] != x:
+            y = rv['op']['l']
+            root = envd.get(('A', y), y)
+            val = envd.get(y, envd.get(root))
+            forget(x)
+            envd[('A', x)] = root
+            if val is not None:
+                envd[x] = val
+        else:
+            forget(x)
+
+    def _env_block(self, envd, bb, i, upto=None):
+        stable = self._stable_locals()
+        stmts = self.blocks[bb]['stmts']
+        n = len(stmts) if upto is None else upto
+        for k in range(i, n):
+            s = stmts[k]
+            if s['k'] == 'assign' and not s['lhs']['p']:
+                self._env_assign(envd, s['lhs']['l'], s['rv'], stable)
+
+    def _env_succs(self, bb, envd):
+        """successors of bb with the environment that holds on each edge"""
+        stable = self._stable_locals()
+        t = self.blocks[bb]['term']
+        succs = self.succ[bb]
+        if t['k'] == 'call' and not t['dest']['p']:
+            e2 = dict(envd)
+            self._env_assign(e2, t['dest']['l'], None, stable)
+            return [(x, e2) for x in succs]
+        if t['k'] == 'switch' and 'l' in t['discr'] and not t['discr']['p'] and t['discr']['l'] in stable:
+            d = t['discr']['l']
+            root = envd.get(('A', d), d)
+            known = envd.get(d, envd.get(root))
+            vals = [(int(x), tgt) for x, tgt in t['targets']]
+            if known is not None:
+                only = dict(vals).get(known, t['otherwise'])
+                return [(x, envd) for x in succs if x == only]
+            out = []
+            for x in succs:
+                hits = [v for v, tgt in vals if tgt == x]
+                learn = None
+                if len(hits) == 1 and x != t['otherwise']:
+                    learn = hits[0]
+                elif not hits and x == t['otherwise'] and t.get('discr_ty') == 'bool' and len(vals) == 1:
+                    learn = 1 - vals[0][0]
+                if learn is None:
+                    out.append((x, envd))
+                else:
+                    e2 = dict(envd)
+                    e2[d] = learn
+                    e2[root] = learn
+                    out.append((x, e2))
+            return out
+        return [(x, envd) for x in succs]
+
+    def _seed_env(self, bb, depth=8):
+        """what is known on entry to bb because every path into it comes along one chain of single-predecessor
+        edges (e.g. the `true` target of `if done`): the facts the switches on that chain establish"""
+        chain = [bb]
+        cur = bb
+        for _ in range(depth):
+            ps = [p for p in self.pred[cur] if not self.blocks[p]['cleanup']]
+            if len(ps) != 1 or ps[0] in chain:
+                break
+            cur = ps[0]
+            chain.append(cur)
+        chain.reverse()
+        envd = {}
+        for a, b in zip(chain, chain[1:]):
+            self._env_block(envd, a, 0)
+            nxt = [e for x, e in self._env_succs(a, envd) if x == b]
+            envd = dict(nxt[0]) if nxt else {}
+        return envd
+
     def forward_paths_hit(self, starts, targets, blockers=(), stop_at_targets=True, track_bools=True, arm_at=None):
         """Location-level forward search over normal edges.
         Returns the first target location reachable from any start without
         crossing a blocker location (a blocker stops the path *at* it), plus the
         path (list of bbs).  None if no target reachable.
-        With track_bools, bool locals that only hold constants are tracked along
-        the path so that `let done = if c {true} else {false}; if done {..}` does
-        not create infeasible paths."""
+        The search is path-sensitive for scalar locals whose address is never taken: constants assigned to
+        them, copies, and what a switch on them (or on a copy) established hold until the next assignment, so
+        `let done = c.complete(); if done {..} if !done {..}` does not create infeasible paths."""
         targets = set(targets)
         blockers = set(blockers)
         tb = defaultdict(list)
@@ -366,22 +477,19 @@ class Func:
         bl = defaultdict(list)
         for t in blockers:
             bl[t[0]].append(t[1])
-        tracked = self._bool_locals() if track_bools else set()
         seen = set()
         dq = deque()
         if arm_at is not None:
             # search from the function entry (so that drop flags have known values); targets and
             # blockers only count after the path has passed `arm_at`
-            return self._armed_search(arm_at, targets, blockers, tracked)
+            return self._armed_search(arm_at, targets, blockers, track_bools)
         for s in starts:
-            dq.append((s[0], s[1], (s[0],), frozenset()))
+            dq.append((s[0], s[1], (s[0],), frozenset(self._seed_env(s[0]).items()) if track_bools else frozenset()))
         while dq:
             bb, i, path, env = dq.popleft()
             if (bb, i, env) in seen:
                 continue
             seen.add((bb, i, env))
-            stmts = self.blocks[bb]['stmts']
-            n = len(stmts)
             cands = [x for x in tb.get(bb, []) if x >= i]
             blks = [x for x in bl.get(bb, []) if x >= i]
             first_t = min(cands) if cands else None
@@ -390,35 +498,19 @@ class Func:
                 return Loc(bb, first_t), list(path)
             if first_b is not None:
                 continue
-            if tracked:
+            if track_bools:
                 envd = dict(env)
-                for k in range(i, n):
-                    s = stmts[k]
-                    if s['k'] == 'assign' and not s['lhs']['p'] and s['lhs']['l'] in tracked:
-                        rv = s['rv']
-                        if rv['k'] == 'use' and rv['op'].get('k') == 'const' and const_val(rv['op']) is not None:
-                            envd[s['lhs']['l']] = const_val(rv['op'])
-                        elif rv['k'] == 'use' and 'l' in rv['op'] and rv['op']['l'] in envd:
-                            envd[s['lhs']['l']] = envd[rv['op']['l']]
-                        else:
-                            envd.pop(s['lhs']['l'], None)
-                env2 = frozenset(envd.items())
+                self._env_block(envd, bb, i)
+                nxt = self._env_succs(bb, envd)
             else:
-                envd = {}
-                env2 = env
-            succs = self.succ[bb]
-            t = self.blocks[bb]['term']
-            if tracked and t['k'] == 'switch' and 'l' in t['discr'] and not t['discr']['p'] and t['discr']['l'] in envd:
-                v = envd[t['discr']['l']]
-                vals = {int(x): tgt for x, tgt in t['targets']}
-                only = vals.get(v, t['otherwise'])
-                succs = [x for x in succs if x == only]
-            for s in succs:
+                nxt = [(x, {}) for x in self.succ[bb]]
+            for s, e2 in nxt:
+                env2 = frozenset(e2.items())
                 if (s, 0, env2) not in seen:
                     dq.append((s, 0, path + (s,), env2))
         return None
 
-    def _armed_search(self, arm_at, targets, blockers, tracked):
+    def _armed_search(self, arm_at, targets, blockers, track=True):
         targets, blockers = set(targets), set(blockers)
         seen = set()
         dq = deque([(0, frozenset(), False, (0,))])
@@ -440,28 +532,13 @@ class Func:
                 if loc == arm_at:
                     armed = True
                     continue
-                if k < len(stmts):
-                    s = stmts[k]
-                    if s['k'] == 'assign' and not s['lhs']['p'] and s['lhs']['l'] in tracked:
-                        rv = s['rv']
-                        if rv['k'] == 'use' and rv['op'].get('k') == 'const' and const_val(rv['op']) is not None:
-                            envd[s['lhs']['l']] = const_val(rv['op'])
-                        elif rv['k'] == 'use' and 'l' in rv['op'] and rv['op']['l'] in envd:
-                            envd[s['lhs']['l']] = envd[rv['op']['l']]
-                        else:
-                            envd.pop(s['lhs']['l'], None)
+                if k < len(stmts) and track:
+                    self._env_block(envd, bb, k, k + 1)
             if stop:
                 continue
-            env2 = frozenset(envd.items())
-            succs = self.succ[bb]
-            t = self.blocks[bb]['term']
-            if t['k'] == 'switch' and 'l' in t['discr'] and not t['discr']['p'] and t['discr']['l'] in envd:
-                v = envd[t['discr']['l']]
-                vals = {int(x): tgt for x, tgt in t['targets']}
-                only = vals.get(v, t['otherwise'])
-                succs = [x for x in succs if x == only]
-            for s2 in succs:
-                dq.append((s2, env2, armed, path + (s2,)))
+            nxt = self._env_succs(bb, envd) if track else [(x, {}) for x in self.succ[bb]]
+            for s2, e2 in nxt:
+                dq.append((s2, frozenset(e2.items()), armed, path + (s2,)))
         return None
 
     def reachable_locs(self, starts, blockers=()):
@@ -910,6 +987,9 @@ class Facts:
             self.j = json.load(fh)
         if self.j.get('crate') != 'a10':
             raise AnchorMissing('fact file is not for crate a10')
+        # helper extraction / renaming since the reference tree is normalised away (see rules/inline.py)
+        from . import inline
+        self.notes = inline.normalise(self.j)
         self.funcs = {}
         self.func_list = []
         for fj in self.j['functions']:
